@@ -290,6 +290,13 @@ Proof. intros A v a F H. destruct v; simpl in H; try discriminate; reflexivity. 
 Lemma field_input_ccfg : forall t key obj, field_input ccfg t key obj = lookup key obj.
 Proof. intros. unfold field_input, from_array. simpl. destruct (lookup key obj); reflexivity. Qed.
 
+(* the two unmarshaller configurations of interest: conf's (canonical keys) and
+   mapping.UnmarshalJsonBytes' (exact keys); [ccfg = kcfg true] and [jcfg = kcfg false] by computation *)
+Definition kcfg (canon : bool) : ucfg := mkCfg false false canon.
+
+Lemma field_input_kcfg : forall canon t key obj, field_input (kcfg canon) t key obj = lookup key obj.
+Proof. intros. unfold field_input, from_array. simpl. destruct (lookup key obj); reflexivity. Qed.
+
 End Shapes.
 
 Definition ro_fam (t : ftype) (ro : ropts) : Prop :=
@@ -333,22 +340,22 @@ Qed.
 Notation S := (shape rf f).
 Notation J := (shape rf FJson).
 
-Definition P_type (t : ftype) : Prop :=
+Definition P_type (canon : bool) (t : ftype) : Prop :=
   fam_type t = true ->
   (forall ro d, ro_fam t ro -> leaves_ok rf d = true -> flok_present t d = true ->
-     rsim gsim (um_present fixed ccfg t ro (S d)) (um_present fixed ccfg t ro (J d))) /\
+     rsim gsim (um_present fixed (kcfg canon) t ro (S d)) (um_present fixed (kcfg canon) t ro (J d))) /\
   (forall inmap d, leaves_ok rf d = true -> flok_elem t d = true ->
-     rsim gsim (um_elem fixed ccfg inmap t (S d)) (um_elem fixed ccfg inmap t (J d))).
+     rsim gsim (um_elem fixed (kcfg canon) inmap t (S d)) (um_elem fixed (kcfg canon) inmap t (J d))).
 
 Definition psim (a b : list gval * bool) : Prop := Forall2 gsim (fst a) (fst b) /\ snd a = snd b.
 
-Definition P_fields (fs : fields) : Prop :=
+Definition P_fields (canon : bool) (fs : fields) : Prop :=
   fam_fields fs = true ->
   forall m, leaves_ok_map rf m = true -> flok_fields fs m = true ->
-    rsim (Forall2 gsim) (um_fields fixed ccfg fs (shape_map rf f m)) (um_fields fixed ccfg fs (shape_map rf FJson m)) /\
+    rsim (Forall2 gsim) (um_fields fixed (kcfg canon) fs (shape_map rf f m)) (um_fields fixed (kcfg canon) fs (shape_map rf FJson m)) /\
     forall filled,
-      rsim psim (um_opt_members fixed ccfg fs (shape_map rf f m) filled)
-                (um_opt_members fixed ccfg fs (shape_map rf FJson m) filled).
+      rsim psim (um_opt_members fixed (kcfg canon) fs (shape_map rf f m) filled)
+                (um_opt_members fixed (kcfg canon) fs (shape_map rf FJson m) filled).
 
 Lemma any_present_shape : forall fs g g' m,
   any_present fs (shape_map rf g m) = any_present fs (shape_map rf g' m).
@@ -408,9 +415,9 @@ Proof.
   - intros xs ys Hxy. simpl. constructor. exact Hxy.
 Qed.
 
-Lemma main_mutual : (forall t, P_type t) /\ (forall fs, P_fields fs).
+Lemma main_mutual_cfg : forall canon, (forall t, P_type canon t) /\ (forall fs, P_fields canon fs).
 Proof.
-  apply ftype_fields_ind17.
+  intro canon. apply ftype_fields_ind17.
   - (* TPrim *)
     intros k _. split.
     + intros ro d [Hs Hfl] Hl Hat. simpl. unfold prim_present. rewrite Hs. simpl.
@@ -462,9 +469,9 @@ Proof.
     destruct (IHt Hft) as [IHp _]. destruct (IHr Hfr m Hl Hat2) as [IHr1 IHr2].
     split.
     + simpl um_fields. eapply rsim_bind with (R := gsim).
-      * rewrite !field_input_ccfg, !lookup_shape, (resolve_shape rf fixed true key o f FJson m).
+      * rewrite !field_input_kcfg, !lookup_shape, (resolve_shape rf fixed canon key o f FJson m).
         destruct (opts_ok o); simpl; [|exact I].
-        destruct (resolve fixed true key o (shape_map rf FJson m)) as [ro|e|] eqn:Hres; simpl; try exact I.
+        destruct (resolve fixed canon key o (shape_map rf FJson m)) as [ro|e|] eqn:Hres; simpl; try exact I.
         pose proof (resolve_fam _ _ _ _ _ t Hres Hfo) as Hro.
         destruct (dlookup key m) as [x|] eqn:Hlk; simpl.
         -- pose proof (leaves_lookup rf key m x Hl Hlk) as Hlx.
@@ -479,9 +486,9 @@ Proof.
         -- intros xs ys Hxy. simpl. constructor; auto.
     + intro filled. simpl um_opt_members.
       eapply rsim_bind with (R := fun a b : gval * bool => gsim (fst a) (fst b) /\ snd a = snd b).
-      * rewrite !field_input_ccfg, !lookup_shape, (resolve_shape rf fixed true key o f FJson m), !(has_shape rf).
+      * rewrite !field_input_kcfg, !lookup_shape, (resolve_shape rf fixed canon key o f FJson m), !(has_shape rf).
         destruct (opts_ok o); simpl; [|exact I].
-        destruct (resolve fixed true key o (shape_map rf FJson m)) as [ro|e|] eqn:Hres; simpl; try exact I.
+        destruct (resolve fixed canon key o (shape_map rf FJson m)) as [ro|e|] eqn:Hres; simpl; try exact I.
         pose proof (resolve_fam _ _ _ _ _ t Hres Hfo) as Hro.
         eapply rsim_bind with (R := gsim).
         -- destruct (dlookup key m) as [x|] eqn:Hlk; simpl.
@@ -518,6 +525,9 @@ Proof.
       * apply IHr2.
       * intros xs ys [Hxy1 Hxy2]. unfold psim. simpl. split; [constructor; auto using gsim_refl | rewrite Hxy2; reflexivity].
 Qed.
+
+Lemma main_mutual : (forall t, P_type true t) /\ (forall fs, P_fields true fs).
+Proof. exact (main_mutual_cfg true). Qed.
 
 End Main.
 
